@@ -101,7 +101,7 @@ func Load(dir string, goos string) (*Prog, error) {
 				normLog = append(normLog, log...)
 			}
 		}
-		for round := 0; round < 4; round++ {
+		for round := 0; round < 8; round++ {
 			changed, log := NormalizeOverlay(pkgs, overlay)
 			if len(changed) == 0 {
 				break
